@@ -4,6 +4,12 @@ NOTES = ("Every check rebuilds the harness from /repo's working tree (go build -
          "then runs the correspondence between the Lean model driver and the real code. See DESIGN.md.")
 NOT_APPLICABLE = {}
 CHECKS = {
+ "C16": {
+  "text": "The grammar table of the generated parser (peg.go) and the documented grammar (propertyparser.peg) are both translated into Lean on every run and proved equal (doc_eq_table); for any grammar ending in the EOF rule an accepted string is consumed entirely (accepts_whole + table_endsWithEOF); every well-formed path AST round-trips through rendering and parsing in canonical and in arbitrary optional whitespace (render_parse, ws_insensitive); the pre-repair grammar truncates (old_truncates). The generic PEG interpreter + hand-modelled semantic actions are tied to the real parser by comparing accept/reject and structure on sentences in whitespace/parenthesis variants and all their single-edit mutations.",
+  "note": "Trusted: Lean kernel; the two grammar translators; the generic PEG interpreter as a model of the pigeon runtime and the hand-modelled actions (tied by the correspondence).",
+  "technique": "Lean 4 proof over a PEG interpreter applied to the regenerated grammar table + exhaustive-mutation differential correspondence with the real parser",
+  "ref": "DESIGN.md 7/C16",
+ },
  "C03": {
   "text": "Lean theorems over a model of level resolution -> Rego level sets -> BuildReport: severity_is_level (a result carries severity S iff its validation is listed under S, defined and firing), conforms_iff, warnings_dont_affect_conforms, result_key_iff_nonempty, profileName_eq, dateCreated_iff, config_only_touches, undefined_skipped; for all profiles, firing relations and configurations. Tied to the code by random level distributions (duplicates, empty/absent levels, undefined names, names/profile names equal to language keys) x graphs x report configurations through the real ValidateWithConfiguration.",
   "note": "Trusted: Lean kernel; the model of parseValidationLevel/rule heads/report[level]/BuildReport; OPA set semantics (duplicates collapse).",
